@@ -45,9 +45,11 @@ type vbrExp struct {
 type vbrStep struct {
 	O  vbrReq `json:"o"`
 	Fl struct {
-		H bool `json:"h"`
-		B bool `json:"b"`
-		J bool `json:"j"`
+		H  bool `json:"h"`
+		B  bool `json:"b"`
+		Rc bool `json:"rc"`
+		Mq bool `json:"mq"`
+		J  bool `json:"j"`
 	} `json:"fl"`
 	Exp []vbrExp `json:"exp"`
 }
@@ -125,6 +127,22 @@ func vbrServeScenario(t *testing.T, res *vResult, bi int, sc *vbrScenario) {
 	for b := 1; b <= len(sc.Par); b++ {
 		if err := bs.AddBlock(f.Block(b)); err != nil {
 			t.Fatalf("VERIF-INFRA AddBlock %d: %v", b, err)
+		}
+	}
+	// "exactly the requested fields": receipts are stored for odd blocks, message queues for blocks that are not
+	// multiples of three, each with bytes that name the field and the block
+	hasRc := func(b int) bool { return b%2 == 1 }
+	hasMq := func(b int) bool { return b%3 != 0 }
+	for b := 1; b <= len(sc.Par); b++ {
+		if hasRc(b) {
+			if err := bs.SetReceipt(f.Hash[b], []byte{0xbb, byte(b)}); err != nil {
+				t.Fatalf("VERIF-INFRA SetReceipt: %v", err)
+			}
+		}
+		if hasMq(b) {
+			if err := bs.SetMessageQueue(f.Hash[b], []byte{0xcc, byte(b), 0x01}); err != nil {
+				t.Fatalf("VERIF-INFRA SetMessageQueue: %v", err)
+			}
 		}
 	}
 	inJ := map[int]bool{}
@@ -319,8 +337,14 @@ func vbrServeScenario(t *testing.T, res *vResult, bi int, sc *vbrScenario) {
 				bad = "justification-presence"
 			case bd.Justification != nil && string(*bd.Justification) != string([]byte{0xaa, byte(id)}):
 				bad = "justification-of-other-block"
-			case bd.Receipt != nil || bd.MessageQueue != nil:
-				bad = "unstored-field-present"
+			case (bd.Receipt != nil) != (s.Fl.Rc && hasRc(id) && id > 0):
+				bad = "receipt-presence"
+			case bd.Receipt != nil && string(*bd.Receipt) != string([]byte{0xbb, byte(id)}):
+				bad = "receipt-is-other-data"
+			case (bd.MessageQueue != nil) != (s.Fl.Mq && hasMq(id) && id > 0):
+				bad = "message-queue-presence"
+			case bd.MessageQueue != nil && string(*bd.MessageQueue) != string([]byte{0xcc, byte(id), 0x01}):
+				bad = "message-queue-is-other-data"
 			}
 			if bad != "" {
 				res.Fail(bi, si, op, "fields of block "+fmt.Sprint(id),
